@@ -176,6 +176,24 @@ CHECKS = {
             'Value grid only; admission gate [1e-300, 1e300]; calibrated ulp budgets (32 / 512 for the cube-root pair: the interpreted **(1/3) alone is 18 ulp '
             'from the exact value); AU and Myr constants are compared across implementations, not against an external standard; the AU mismatch is a known finding.',
             'DESIGN.md section 2, C17 and section 8'),
+    'C10': ('exploration', 'E1-lattice',
+            'exhaustive configuration lattice (entry x rheology x l_max x truncation x obliquity slot x orbit, full spin/n x e grid, 11 input forms) on the '
+            'real code against an independent un-grouped Kaula (l,m,p,q) mode-sum reference; array-vs-scalar metamorphic relation',
+            'All 9300 (quick 1860) configurations of entry {quick_tidal_dissipation, calculate_terms+collapse_modes} x rheology(10) x l_max 2..7 x truncation x '
+            'obliquity slot x orbit, each with the full spin/n x e grid and 11 scalar/array input forms (~1.0M real calls thorough), satisfy the heating / '
+            'derivative identity, the rest state, the classical limit, the sign clause and the independent un-grouped reference including the '
+            'frequency-signature grouping (key set, frequency values, every grouped term tuple) to 1e-10 of sum|terms| (measured <= 1.4e-14).',
+            'F^2 / G^2 table values, compliances and the homogeneous Love number are taken from the library (checked by C08, C09, C07, C12); heating >= 0 is '
+            'asserted only where all tabulated G^2 entries are >= 0; one known finding (newton rheology at an exactly zero-frequency mode); nothing off the grid.',
+            'DESIGN.md section 2, C10 and section 8'),
+    'C11': ('exploration', 'E1-lattice',
+            'exhaustive configuration lattice (single / dual / bare dynamics entry points x rheology x mass pair x l_max x truncation x obliquity x MOI, separation) '
+            'on the real code; energy and angular-momentum balances, e = 0 limit, array-vs-scalar',
+            'All 32,400 (quick 4,860) configurations of entry {single, dual, bare} x rheology x mass pair x l_max x truncation x obliquity x (MOI, separation), ~1.8M real '
+            'calls thorough, conserve energy and (planar) angular momentum to 1e-10 of sum|terms| (measured <= 3.3e-15), give de/dt = 0 at e = 0 for scalar and array '
+            'input, array results equal scalar results exactly, the combined rate function equals the separate ones and dual(silent host) equals single.',
+            'Angular momentum only for obliquity None / 0; calls on the C10 known-finding input family are not admitted; scale floor 1e-20 of the full amplitude '
+            '(exact rest states leave 1e-33 residues through the general inclination tables); nothing off the grid.', 'DESIGN.md section 2, C11 and section 8'),
 }
 
 NOT_APPLICABLE = {}
